@@ -1,8 +1,187 @@
-import EdpVerif.Drv.Common
-namespace Edp.Drv
+import EdpVerif.Drv.Etf
+import EdpVerif.Generated.Control
+import EdpVerif.Impl.Recv
+import EdpVerif.Spec.Peer
+/-!
+Driver requests of property C06.
 
-/-- driver requests of property C06 (stub: nothing handled yet) -/
+* `c06recv <conn|rh> <oracle> <frames>` — the model (`Recv.recvAll` / `Recv.recvAllRH`) on a frame history; frames are
+  `,`-separated hex bodies, `-` = tick (empty body). Prints `r₁/r₂/…` (`-` when nothing was returned).
+* `c06oracle <conn|rh> <pt|hdr> <oracle> <frames> <results> <lenient seqs|->` — the reference receiver of Spec/Peer.lean reads the same
+  frames by the protocol and judges what the implementation returned (`results`, same text form).
+* `c06form <pt|hdr|frag> …` — the frames the harness' peer sent are the frames Spec/Peer.lean part 1 builds.
+-/
+namespace Edp.Drv
+open Edp Edp.Control
+
+def c06tbl : Table := Gen.controlTable
+
+def c06cut (s : String) (n : Nat) : String := (s.take n).toString
+
+def c06frames (s : String) : Except String (List Bytes) :=
+  if s == "-" || s == "" then .ok [] else
+  (s.splitOn ",").mapM fun w => if w == "-" then .ok [] else getHex w
+
+/-! ### judging one returned result against one expectation -/
+
+/-- a structured message agrees with the control tuple the peer sent (values): the variant implements the operation
+with this tag, every field holds the element at the position of its role -/
+def c06structured (v : String) (fs : List (String × FVal)) (tag : Nat) (els : List Value) : Option String :=
+  match lookup Spec.opOfVariant v with
+  | none => some ("unknown-variant " ++ v)
+  | some pn =>
+    match Spec.findOp pn with
+    | none => some ("no-protocol-op " ++ pn)
+    | some op =>
+      if op.tag != tag then some ("tag " ++ toString tag ++ " returned " ++ pn) else
+      match (op.fields :: op.alt).find? (fun l => l.length + 1 == els.length) with
+      | none => some ("arity " ++ toString els.length ++ " returned " ++ pn)
+      | some layout =>
+        if fs.length != layout.length then some "field-count" else
+        let bad := fs.filter fun (f, x) =>
+          match lookup Spec.roleOfField f with
+          | none => true
+          | some role =>
+            match layout.idxOf? role with
+            | none => true
+            | some k =>
+              match els[k + 1]?, x with
+              | some e, .term t => !(Value.same t.den e)
+              | some e, .uid n => !(role == Spec.idRole && Value.same e (.int (n : Int)))
+              | none, _ => true
+        match bad with
+        | [] => none
+        | (f, _) :: _ => some ("field " ++ f)
+
+def c06control (m : Msg) (ctl : Value) : Option String :=
+  match ctl with
+  | .tuple (.int tag :: rest) =>
+    match m with
+    | .generic ty l =>
+      -- the protocol table knows no operation of this tag and arity (SPAWN_REQUEST / SPAWN_REQUEST_TT in the protocol's
+      -- own arity, which the library does not have as a structured variant, is C08's recorded low-confidence difference
+      -- and comes back as `Generic` with every element intact: accepted here)
+      let libKnows := match Spec.opOfTagArity tag.toNat (rest.length + 1) with
+        | some op => op.alt.isEmpty || op.alt.any (fun l => l.length + 1 == rest.length + 1)
+        | none => false
+      if libKnows then some "known-operation-returned-as-generic"
+      else if (ty : Int) == tag && l.length == rest.length && (l.zip rest).all (fun (a, b) => Value.same a.den b) then none
+      else some "generic-fields"
+    | .known v fs => c06structured v fs tag.toNat (.int tag :: rest)
+  | _ => some "not-a-control-tuple"
+
+/-- `none` = the returned result is what the expectation demands -/
+def c06judge (e : Spec.Peer.Expect) (r : String) : Option String :=
+  match e, r.splitOn "~" with
+  | _, ["panic"] => some "panic"
+  | .err, ["err"] => none
+  | .err, _ => some ("malformed-frame-accepted " ++ c06cut r 60)
+  | .unspecified, _ => none
+  | .msg _ _, ["err"] => some "valid-message-rejected"
+  | .msg ctl pay, ["ok", m, p] =>
+    match Msg.ofText m with
+    | none => some "bad-msg-text"
+    | some msg =>
+      match c06control msg ctl with
+      | some why => some ("control " ++ why)
+      | none =>
+        match pay, p with
+        | none, "-" => none
+        | some v, "-" => some ("payload-lost " ++ c06cut v.text 40)
+        | none, _ => some "payload-invented"
+        | some v, t =>
+          match Term.ofText t with
+          | none => some "bad-payload-text"
+          | some pt => if Value.same pt.den v then none else some ("payload-differs sent=" ++ c06cut v.text 60 ++ " got=" ++ c06cut pt.den.text 60)
+  | _, _ => some ("bad-result " ++ c06cut r 40)
+
+/-- walk expectations and results together: every `msg`/`err` expectation consumes exactly one result; `nothing` consumes
+none; an `unspecified` frame may have produced one result or none, so both alignments are tried -/
+partial def c06align : List Spec.Peer.Expect → List String → Option String
+  | [], [] => none
+  | [], r :: _ => some ("extra-result " ++ c06cut r 60)
+  | .nothing :: es, rs => c06align es rs
+  | .unspecified :: es, rs =>
+    match c06align es rs with
+    | none => none
+    | some why =>
+      match rs with
+      | r :: rs' => if r == "panic" then some "panic" else
+        match c06align es rs' with
+        | none => none
+        | some _ => some why
+      | [] => some why
+  | e :: _, [] => some ("missing-result for " ++ (match e with | .msg c _ => c06cut c.text 60 | _ => "malformed frame"))
+  | e :: es, r :: rs =>
+    match c06judge e r with
+    | some why => some why
+    | none => c06align es rs
+
+/-- the sequence id of a fragment frame -/
+def c06seq : Bytes → Option Nat
+  | 131 :: t :: r => if t == 69 || t == 70 then (rdN 8 r).map (·.1) else none
+  | _ => none
+
+def c06oracle (api mode : String) (o : Oracle) (frames : List Bytes) (results : List String) (lenient : List Nat) : String :=
+  let inflate := o.env.inflate
+  let exps := Spec.Peer.readAll inflate {} frames
+  -- sequences the caller does not want judged (the message of a recorded finding): only "later frames intact" is kept
+  let exps := (frames.zip exps).map fun (f, e) =>
+    match c06seq f, e with
+    | some q, .msg c p => if lenient.contains q then Spec.Peer.Expect.unspecified else .msg c p
+    | _, e => e
+  -- the read-half copy serves connections without DIST_HDR_ATOM_CACHE: anything but pass-through is malformed there;
+  -- on a pass-through connection (`pt`) a conforming peer sends no header or fragment frames either
+  let exps := if api == "rh" || mode == "pt" then
+      (frames.zip exps).map fun (f, e) =>
+        match f with
+        | [] => e
+        | 112 :: _ => e
+        | _ => if api == "rh" then Spec.Peer.Expect.err else
+          -- `receive_message` on a pass-through connection: header-mode frames are outside what the peer may send
+          (match e with | .err => .err | _ => .unspecified)
+    else exps
+  match c06align exps results with
+  | none => "ok"
+  | some why => "FAIL " ++ why
+
+def c06wire (ctl pay : String) : Except String Spec.Peer.Wire := do
+  let c ← getHex ctl
+  let p ← if pay == "-" then pure none else (getHex pay).map some
+  pure { ctl := c, pay := p }
+
+def c06atoms (s : String) : Except String (List Bytes) :=
+  if s == "-" then .ok [] else (s.splitOn ",").mapM fun w => if w == "." then .ok [] else getHex w
+
+def c06nats (s : String) : List Nat :=
+  if s == "-" then [] else (s.splitOn ",").map String.toNat!
+
 def handleC06 : List String → Option String
+  | ["c06recv", api, o, fr] => some <| run do
+    let frames ← c06frames fr
+    let x := (parseOracle o).ext
+    if api == "rh" then pure (Recv.resultsText (Recv.recvAllRH x c06tbl frames))
+    else pure (Recv.resultsText (Recv.recvAll x c06tbl Recv.St.init frames))
+  | ["c06oracle", api, mode, o, fr, res, len] => some <| run do
+    let frames ← c06frames fr
+    let results := if res == "-" then [] else res.splitOn "/"
+    pure (c06oracle api mode (parseOracle o) frames results (c06nats len))
+  | ["c06form", "pt", ctl, pay, fr] => some <| run do
+    let w ← c06wire ctl pay
+    let f ← getHex fr
+    pure (if Spec.Peer.passThrough w == f then "ok" else "FAIL pass-through-frame")
+  | ["c06form", "hdr", atoms, segs, long, ctl, pay, fr] => some <| run do
+    let w ← c06wire ctl pay
+    let a ← c06atoms atoms
+    let f ← getHex fr
+    let hdr := Spec.Peer.headerBytes (Spec.Peer.positional (c06nats segs) a) (long == "1")
+    pure (if Spec.Peer.withHeader hdr w == f then "ok" else "FAIL header-frame")
+  | ["c06form", "frag", seq, lens, atoms, segs, long, ctl, pay, fr] => some <| run do
+    let w ← c06wire ctl pay
+    let a ← c06atoms atoms
+    let fs ← c06frames fr
+    let hdr := Spec.Peer.headerBytes (Spec.Peer.positional (c06nats segs) a) (long == "1")
+    pure (if Spec.Peer.fragmented seq.toNat! hdr w (c06nats lens) == fs then "ok" else "FAIL fragment-frames")
   | _ => none
 
 end Edp.Drv
